@@ -404,6 +404,63 @@ func c16Families(c *core.Ctx) []struct {
 	return []fam{{"sig", c16Sig, 5}, {"num", c16Num, 7}, {"str", c16Str, 7}, {"cmt", c16Cmt, 8}, {"bytes", all, 2}}
 }
 
+// c16Dictionary lexes one input holding ~1.6 million distinct identifiers (plus strings and comments built from them)
+// and checks that every token carries exactly its own text: a table of shared tokens keyed by anything weaker than
+// the text itself (a 32-bit hash has ~290 expected collisions here) hands back another literal.
+func c16Dictionary(c *core.Ctx, id string) {
+	if c.Shard != 0 && c.Of > 1 {
+		return
+	}
+	var words []string
+	enumStrings([]byte("abcdefghijklmnopqrstuvwxyz"), 4, func(b []byte) bool {
+		if len(b) > 0 {
+			words = append(words, string(b))
+		}
+		return true
+	})
+	enumStrings([]byte("abcdefghij"), 6, func(b []byte) bool {
+		if len(b) >= 5 {
+			words = append(words, "q"+string(b))
+		}
+		return true
+	})
+	var sb strings.Builder
+	for i, w := range words {
+		switch i % 16 {
+		case 5:
+			sb.WriteString("\"" + w + "\" ")
+		case 11:
+			sb.WriteString("/*" + w + "*/ ")
+		default:
+			sb.WriteString(w + " ")
+		}
+	}
+	text := sb.String()
+	cs := core.Case{Kind: "dictionary", Data: fmt.Sprintf("%d words", len(words))}
+	c.Current(cs)
+	v := c.Run(func() *core.Viol {
+		for pass := 0; pass < 2; pass++ {
+			l := lexer.New(text)
+			for i, w := range words {
+				tok := l.NextToken()
+				want := w
+				if i%16 == 11 {
+					want = "/*" + w + "*/"
+				}
+				if tok.Literal() != want {
+					return &core.Viol{Class: "dictionary:token-text-differs", Detail: fmt.Sprintf("word %d of %d: token %q for source %q (pass %d)", i, len(words), trunc(tok.Literal(), 40), want, pass), Case: cs}
+				}
+			}
+		}
+		return nil
+	})
+	out := "dictionary-ok"
+	if v != nil {
+		out = v.Class
+	}
+	c.CountNT(fmt.Sprintf("dictionary of %d distinct words lexed twice", len(words)), out, true)
+}
+
 func runC16(c *core.Ctx) {
 	st := &c16State{interned: map[internKey]*token.Token{}}
 	token.Init()
@@ -469,6 +526,8 @@ func runC16(c *core.Ctx) {
 		}
 		bound = append(bound, fmt.Sprintf("%d escape spellings (\\xHH for all 256 values in both cases, backslash + every byte, \\u/\\U boundary values, octal, truncated) x 2 quote styles x 2 prefixes x 3 suffixes x 4 continuations", len(escs)))
 	}
+	c16Dictionary(c, "C16")
+	bound = append(bound, "one input of ~1.6 million distinct identifiers / strings / comments lexed twice, every token text compared with its source")
 	// keywords and builtins alone and followed by each significant byte
 	for kw := range c16Keywords {
 		for _, b := range append([]byte{}, c16Sig...) {
